@@ -25,6 +25,8 @@ func main() {
 		textioMain(os.Args[2:])
 	case "cache":
 		cacheMain(os.Args[2:])
+	case "cli":
+		cliMain(os.Args[2:])
 	default:
 		fmt.Fprintf(os.Stderr, "unknown driver %q\n", os.Args[1])
 		os.Exit(2)
